@@ -237,3 +237,26 @@ package runner
 //@   property C10 C16 C05 C06 C07 C11 C12 C18
 //@   ensures [fields_as_given] result != nil && result.parent == parent && result.printer == printer && result.indenter == i
 //@   ensures [active_by_default] result.active
+
+// The display names of the steps: fixed texts, or the name the step was created with (the row of the report is 60 runes
+// wide; that the names wired in internal/gontainer fit is evaluated by the composition test).
+//@ func (*StepCodeGenerator).Name pure
+//@   property C10 C08 C12
+//@   ensures [fixed_text] result == "Generate code"
+//@ func (*StepCompile).Name pure
+//@   property C10 C08 C12
+//@   ensures [fixed_text] result == "Compile"
+//@ func (StepDefaultInput).Name pure
+//@   property C10 C08 C12
+//@   ensures [fixed_text] result == "Default input"
+//@ func (*StepReadConfig).Name pure
+//@   property C10 C08 C12
+//@   ensures [fixed_text] result == "Read config"
+//@ func (*StepAmalgamated).Name pure
+//@   property C10 C08 C12
+//@   requires s != nil
+//@   ensures [the_given_name] result == s.name
+//@ func (*StepOutputValidationRule).Name pure
+//@   property C10 C08 C12
+//@   requires s != nil
+//@   ensures [the_given_name] result == s.ruleName
